@@ -26,6 +26,18 @@ constexpr uint64_t val(const term_value<char>& t) { char c = t.get_value(); retu
 constexpr uint64_t val(const term_value<std::string_view>& t) { return term_hash(t.get_value()[0] - 'a', t.get_value()); }
 constexpr uint64_t val(no_type) { return 0xe44044ULL; }
 template<int R> struct F { template<class... A> constexpr uint64_t operator()(A&&... a) const { uint64_t h = hcomb(0xabcd, uint64_t(R)); ((h = hcomb(h, val(a))), ...); return h; } };
+// spelled terminals: the grammar's namespace supplies M::term_of(lexeme)
+constexpr uint64_t val2(uint64_t v) { return v; }
+constexpr uint64_t val2(no_type) { return 0xe44044ULL; }
+template<class M> struct V2 {
+  static constexpr uint64_t of(uint64_t v) { return v; }
+  static constexpr uint64_t of(no_type) { return 0xe44044ULL; }
+  static constexpr uint64_t of(const term_value<uint64_t>& t) { return t.get_value(); }
+  static constexpr uint64_t of(const term_value<char>& t) { char c = t.get_value(); return term_hash(M::term_of(std::string_view(&c, 1)), std::string_view(&c, 1)); }
+  static constexpr uint64_t of(const term_value<std::string_view>& t) { return term_hash(M::term_of(t.get_value()), t.get_value()); }
+};
+template<int R, class M> struct F2 { template<class... A> constexpr uint64_t operator()(A&&... a) const { uint64_t h = hcomb(0xabcd, uint64_t(R)); ((h = hcomb(h, V2<M>::of(a))), ...); return h; } };
+template<int T> struct TF { constexpr uint64_t operator()(std::string_view sv) const { return term_hash(T, sv); } };
 template<int R> struct G { template<class... A> constexpr uint64_t operator()(A&&...) const { return uint64_t(R); } };
 template<int R> struct FC { template<class C, class... A> constexpr uint64_t operator()(C&&, A&&... a) const { uint64_t h = hcomb(0xabcd, uint64_t(R)); ((h = hcomb(h, val(a))), ...); return h; } };
 // is T::run() a constant expression?  1 value / 0 empty / -1 not a constant expression
@@ -56,36 +68,86 @@ def cstr(b):
     return '"' + "".join("\\%03o" % c for c in b) + '"'
 
 
+def cxx_str(t):
+    return '"' + t.replace("\\", "\\\\").replace('"', '\\"') + '"'
+
+
 def render_grammar(gi, case, with_cases=True):
     g = case["grammar"]
     ns = "g%d" % gi
     nN = g["nN"]
     out = ["namespace %s {" % ns]
     out.append("constexpr nterm<uint64_t> " + ", ".join('N%d("%s")' % (i, nname(i, nN)) for i in range(nN)) + ";")
+    spelling = case.get("spelling")
     terms = []
-    for t, ti in enumerate(g["terms"]):
-        ch = chr(ord('a') + t)
-        assoc = ["no_assoc", "ltor", "rtol"][ti["assoc"]]
-        if ti["prec"] != 0 or ti["assoc"] != 0:
-            out.append("constexpr char_term t%d('%s', %d, associativity::%s);" % (t, ch, ti["prec"], assoc))
-            terms.append("t%d" % t)
-        else:
-            terms.append("'%s'" % ch)
+    in_rules = {}
+    functor = "hh::F<%d>{}"
+    if spelling:
+        # real term kinds: char / string (implicit or explicit object), regex with or without custom name, typed char term
+        import random
+        rnd = random.Random(gi * 7919 + len(g["rules"]))
+        tof = []
+        decl = {}
+        for t, (ti, sp) in enumerate(zip(g["terms"], spelling)):
+            assoc = "associativity::" + ["no_assoc", "ltor", "rtol"][ti["assoc"]]
+            plain = ti["prec"] == 0 and ti["assoc"] == 0
+            k = sp["kind"]
+            if k in ("r", "R"):
+                out.append("constexpr char pat%d[] = %s;" % (t, cxx_str(sp["text"])))
+                if k == "r":
+                    out.append("constexpr regex_term<pat%d> T%d(%s, %d, %s);" % (t, t, cxx_str(sp["name"]), ti["prec"], assoc))
+                else:
+                    out.append("constexpr regex_term<pat%d> T%d(%d, %s);" % (t, t, ti["prec"], assoc))
+                decl[t] = "T%d" % t
+                in_rules[t] = ["T%d" % t]
+                tof.append("if (!lex.empty() && lex[0] == '%s') return %d;" % (sp["text"][0], t))
+            elif k == "t":
+                out.append("constexpr typed_term T%d(char_term('%s', %d, %s), hh::TF<%d>{});" % (t, sp["text"], ti["prec"], assoc, t))
+                decl[t] = "T%d" % t
+                in_rules[t] = ["T%d" % t]
+            else:
+                lit = ("'%s'" % sp["text"]) if k == "c" else cxx_str(sp["text"])
+                if plain and rnd.random() < 0.6:
+                    decl[t] = lit
+                    in_rules[t] = [lit]
+                else:
+                    if k == "c":
+                        out.append("constexpr char_term T%d(%s, %d, %s);" % (t, lit, ti["prec"], assoc))
+                    else:
+                        out.append("constexpr string_term T%d(%s, %d, %s);" % (t, lit, ti["prec"], assoc))
+                    decl[t] = "T%d" % t
+                    in_rules[t] = ["T%d" % t, lit]          # an explicitly defined term may still be named by its literal in rules
+                tof.append("if (lex == std::string_view(%s)) return %d;" % (cxx_str(sp["text"]), t))
+        out.append("struct M { static constexpr int term_of(std::string_view lex) { %s return -1; } };" % " ".join(tof))
+        terms = [decl[t] for t in case["decl_order"]]
+        functor = "hh::F2<%d, M>{}"
+    else:
+        for t, ti in enumerate(g["terms"]):
+            ch = chr(ord('a') + t)
+            assoc = ["no_assoc", "ltor", "rtol"][ti["assoc"]]
+            if ti["prec"] != 0 or ti["assoc"] != 0:
+                out.append("constexpr char_term t%d('%s', %d, associativity::%s);" % (t, ch, ti["prec"], assoc))
+                terms.append("t%d" % t)
+            else:
+                terms.append("'%s'" % ch)
     rules = []
-    for r in g["rules"]:
+    for ri, r in enumerate(g["rules"]):
         syms = []
-        for s in r["rhs"]:
+        for si, s in enumerate(r["rhs"]):
             if "n" in s:
                 syms.append("N%d" % s["n"])
             elif s["t"] == g["nT"] + 1:
                 syms.append("error")
+            elif spelling:
+                alts = in_rules[s["t"]]
+                syms.append(alts[(ri + si) % len(alts)])
             else:
                 syms.append("'%s'" % chr(ord('a') + s["t"]))
         txt = "N%d(%s)" % (r["lhs"], ", ".join(syms))
         if "prec" in r:
             txt += "[%d]" % r["prec"]
         if not r.get("default_functor"):
-            txt += " >= hh::F<%d>{}" % r["slot"]
+            txt += " >= " + functor % r["slot"]
         rules.append(txt)
     # the parser stores pointers into itself (term names), so it is always constructed in place, never returned by value
     out.append("#define G%d_ARGS N%d, terms(%s), nterms(%s), rules(\\\n    %s)" % (
@@ -303,12 +365,15 @@ def parse_case_lines(out):
     return res
 
 
-def emit_cases(seed, n, work):
+def emit_cases(seed, n, work, spelling=True):
     ok, eg, log = BUILD.ensure("e_grammar", REPO)
     if not ok:
         return None, log
     out = os.path.join(work, "emit.json")
-    r = subprocess.run([eg, "--prop", "C07", "--mode", "emit", "--seed", str(seed), "--cases", str(n), "--size", "400", "--out", out], stdout=subprocess.PIPE, stderr=subprocess.STDOUT)
+    env = dict(os.environ)
+    if not spelling:
+        env["EMIT_NO_SPELLING"] = "1"
+    r = subprocess.run([eg, "--prop", "C07", "--mode", "emit", "--seed", str(seed), "--cases", str(n), "--size", "400", "--out", out], stdout=subprocess.PIPE, stderr=subprocess.STDOUT, env=env)
     if not os.path.exists(out):
         return None, r.stdout.decode("utf-8", "replace")[-3000:]
     return json.load(open(out))["cases"], ""
@@ -317,8 +382,8 @@ def emit_cases(seed, n, work):
 def run(pid, tier, seed, work, viol_dir, known_ids=()):
     t0 = time.time()
     excluded = {}
-    ncases = {"C07": {"quick": 32, "thorough": 320}, "C17": {"quick": 8, "thorough": 60}, "C13": {"quick": 16, "thorough": 160}}[pid][tier]
-    cases, log = emit_cases(seed % 0x7FFFFFFF or 1, ncases, work)
+    ncases = {"C07": {"quick": 24, "thorough": 240}, "C17": {"quick": 8, "thorough": 60}, "C13": {"quick": 16, "thorough": 160}}[pid][tier]
+    cases, log = emit_cases(seed % 0x7FFFFFFF or 1, ncases, work, spelling=(pid == "C07"))
     if cases is None:
         print("HARNESS-BUILD-FAILED engine=e_grammar (emit)")
         print(log)
@@ -405,6 +470,10 @@ def run(pid, tier, seed, work, viol_dir, known_ids=()):
                         lab("kind:" + inp["kind"])
                     lab("compiler:" + cxx)
                 lab("class:" + case["class"])
+                if case.get("spelling"):
+                    lab("spelled-terms")
+                    for sp in case["spelling"]:
+                        lab("term-kind:" + {"c": "char", "s": "string", "r": "regex(named)", "R": "regex(unnamed)", "t": "typed"}[sp["kind"]])
         for case in cases[:3]:
             samples.append({"grammar": case["grammar"]["text"], "class": case["class"], "inputs": [i["text"] for i in case["inputs"]][:8]})
     elif pid == "C13":
